@@ -157,14 +157,15 @@ class Excel:
             for row in worksheet.iter_rows():
                 rows_data = []
                 for index, cell in enumerate(row):
-                    if cell.value and (suspicious_constructions := cls._get_suspicious_constructions(cell.value)):
+                    value = cell.value
+                    # обрабатываем ArrayFormula, считываем из него значение формулы
+                    if isinstance(value, ArrayFormula):
+                        value = value.text.strip()
+
+                    if value and (suspicious_constructions := cls._get_suspicious_constructions(value)):
                         suspicious_cells[f"'{worksheet.title}'{cell.column_letter}{cell.row}"] = suspicious_constructions
 
-                    # обрабатываем ArrayFormula, считываем из него значение формулы
-                    if isinstance(cell.value, ArrayFormula):
-                        rows_data.append(cell.value.text.strip())
-                    else:
-                        rows_data.append(cell.value)
+                    rows_data.append(value)
                 worksheet_data.append(rows_data)
                 rows_data_len = len(rows_data)
                 if max_row_len < rows_data_len:
